@@ -419,6 +419,8 @@ def sec_sampling_rule(rec, patches=None):
     (executed by C02's sampling section; the original and the binned loader both rely on it)"""
     from .c02 import sec_sampling
 
+    for shp in ((3, 3, 3), (2, 3, 4)):  # unrotated molecules on concrete boxes (all linear): shortcuts that skip the interpolation
+        sec_sampling(rec, order=1, corner_safe=False, shape=shp, quat=(0, 0, 0, 1), patches=patches)
     sec_sampling(rec, order=1, corner_safe=False, patches=patches)
 
 
